@@ -252,10 +252,41 @@ def pyEnumerate {β : Type} (xs : List β) : List (Nat × β) := pyEnumerateFrom
 
 /-! ### 2-D landscape plots -/
 
-/-- `depth not in depth_range` after `if not depth_range: depth_range = range(max_depth + 1)`: `depth_range` is `None`, or a
-    list of depths (a `range` object is the list of its elements) -/
-def depthRangeOrAll (dr : Option (List Nat)) (maxDepth : Int) : List Nat :=
-  if truthy dr then seqOf dr else List.range (maxDepth + 1).toNat
+/-- what the plots read of a `PersLandscapeExact` AFTER `landscape.compute_landscape()`: the sequence that iterating the object
+    yields (`__getitem__(0)`, `__getitem__(1)`, … until `IndexError`: the entries of `critical_pairs`) and `max_depth` -/
+structure LandExact (α : Type) where
+  depths : List (List (α × α))
+  max_depth : Int
+
+/-- the same for a `PersLandscapeApprox`: the rows of `values`, `max_depth`, `start`, `stop` -/
+structure LandApprox (α : Type) where
+  depths : List (List α)
+  max_depth : Int
+  start : α
+  stop : α
+
+/-- `if not depth_range: depth_range = range(stop)` on `None`-or-a-list-of-depths (a `range` object is the list of its elements) -/
+def rangeOr (dr : Option (List Nat)) (stop : Int) : List Nat :=
+  if truthy dr then seqOf dr else List.range stop.toNat
+
+/-- truth value of `None`-or-a-string (`if title:`): a non-empty string -/
+def truthyStr : Option String → Bool
+  | some s => s != ""
+  | none => false
+
+/-- a `None`-or-a-string where a string is passed on (reached only when it is truthy) -/
+def strOf : Option String → String
+  | some s => s
+  | none => ""
+
+/-- what the 2-D landscape plots do after their lines: `ax.legend()`, `if title: ax.set_title(title)`,
+    `if labels: ax.set_xlabel(labels[0]); ax.set_ylabel(labels[1])` (on a figure in state `f`, given axes) -/
+def SFig.landAfter (f : SFig α) (title : Option String) (labels : Option (List String)) : SFig α :=
+  { f with
+    legend := some (Axes.given, ⟨[], []⟩)
+    title := if truthyStr title then some (Axes.given, strOf title) else f.title
+    xlabel := if truthy labels then some (Axes.given, ((seqOf labels)[0]?).getD "") else f.xlabel
+    ylabel := if truthy labels then some (Axes.given, ((seqOf labels)[1]?).getD "") else f.ylabel }
 
 /-- `np.array(l)[:, 0]`, `np.array(l)[:, 1]` for a list of pairs -/
 def pairsCol0 (l : List (α × α)) : List α := l.map fun p => p.1
